@@ -286,6 +286,26 @@ def run(ctx, res):
                     res.bad("SIBLING", key + " # differs",
                             "AssignUpdateKind::%s does not use %s(variable, rhs) as BinaryOperatorKind::%s does: `x %s= e` can differ from `x = x %s e`" % (k, sib[k], k, "+" if k == "Add" else "-", "+" if k == "Add" else "-"),
                             "%s:%d" % (EVAL, S.line(a)))
+    # SIBLING (store): `x += e` must write the variable through the same binding operation as `x = e` (the innermost
+    # binding of the name), and read it through the same lookup
+    P_ = ctx.P
+    ea, eu = P_.require_fn("eval::eval_assign"), P_.require_fn("eval::eval_assign_update")
+
+    def binding_ops(g):
+        out = set()
+        for _, t_ in g.calls():
+            n_ = M.callee_name(t_) or ""
+            if n_.startswith("eval::Bindings::") or n_.endswith(("Env::set_with_file_scope", "Bindings::set_existing")):
+                out.add(n_.split("::")[-1])
+        return out
+    wa, wu = binding_ops(ea), binding_ops(eu)
+    writers = {"set_existing"}
+    if (wa & writers) and (wa & writers) == (wu & writers) and not ((wu - wa) - {"get", "has"}):
+        res.ok("SIBLING", "eval_assign_update stores through %s, like eval_assign" % sorted(wu & writers))
+    else:
+        res.bad("SIBLING", "eval::eval_assign_update # store differs",
+                "`x += e` does not store the variable the way `x = e` does (eval_assign uses %s, eval_assign_update uses %s): with a shadowed name the two "
+                "forms update different bindings" % (sorted(wa), sorted(wu)), eu.loc())
     stale = [k for k in table if k not in used]
     for k in stale:
         res.note("stale interval-table row (site no longer present): %s" % k)
